@@ -3,7 +3,7 @@
    (so the checker cannot raise a false alarm on an output the theorem allows). *)
 From Coq Require Import NArith ZArith List Bool Lia.
 Import ListNotations.
-Require Import UV.Gen.Consts UV.Mcount.Model UV.Mcount.Forest UV.Mcount.PlainProofs UV.Mcount.Embed UV.Mcount.Check.
+Require Import UV.Gen.Consts UV.Mcount.Model UV.Mcount.Forest UV.Mcount.PlainProofs UV.Mcount.Embed UV.Mcount.Check UV.Mcount.Monotone.
 Local Open Scope N_scope.
 
 Lemma scan_history : forall k d, scan d (history d k) = Some d.
@@ -190,4 +190,17 @@ Qed.
 Theorem ok_emb_exact f l : ok_emb f l = true <-> exists g, emb g f /\ l = map ideal (flat_map (history 0) g).
 Proof.
   split; [exact (ok_emb_sound f l)|]. intros (g & M & ->). exact (ok_emb_complete g f M).
+Qed.
+
+(* at ANY instant of the run (after any prefix of the thread's history - also where a crash or kill stops it)
+   the stream written so far is a list prefix of the flattening of a forest embedded in the history *)
+Theorem stream_at_any_instant c : no_switch c -> forall f, all_ended f -> heights f <= max_stack c ->
+  forall p q, flat_forest f = p ++ q ->
+  exists g l, emb g f /\ out (fst (exec c p (init, []))) ++ l = flat_map (history 0) g.
+Proof.
+  intros NS f HT Hh p q Hpq.
+  destruct (run_forest_emb c NS f HT Hh) as (g & M & E).
+  assert (NF : no_fork q) by (apply (no_fork_suffix p); rewrite <- Hpq; apply flat_forest_no_fork).
+  destruct (stream_append_only c p q (init, []) NF) as [l Hl].
+  exists g, l. split; [exact M|]. rewrite <- E, Hpq. symmetry. exact Hl.
 Qed.
